@@ -265,6 +265,7 @@ def run(chk: Check, ctx: Any) -> None:
     listing_rule(chk, ctx, "C18-R4")
     from .c04 import print_parse_rule
     print_parse_rule(chk, ctx, "C18-R4", kinds=("position mark",))
+    edited_mark_rule(chk, ctx, "C18-R4")
 
 
 
@@ -482,6 +483,34 @@ def 1 for actor 5 { k(Position<'', 0, 0>); }
     "spellings": "def 0 { a(Position<'padded', 08.5, 010.0>, Position<'neg', -007.50, 00.5>); b(Position<'plain', 123.0, -456.500>, Position<'hex', 0x1F, 0b101>); }",
     "one-line": "def 0 { a(Position<'p', 1, 2>); } def 1 { b(Position<'q', 3.5, 4.5>); }",
 }
+
+
+def edited_mark_rule(chk: Check, ctx: Any, rule: str) -> None:
+    """"the printed form of an edited mark": a mark object that was printed, then edited in place, prints like a new mark with the edited values."""
+    from ..engine.absint import Interp, PyExc, Unsupported
+    repo = ctx.repo
+    I = Interp(repo, ctx.fold)
+    M = repo.find_class("SsbOpParamPositionMarker")
+    anchor = Func(M.mod, M, M.methods["__str__"]) if "__str__" in M.methods else M.mod
+    fields = ("name", "x_offset", "y_offset", "x_relative", "y_relative")
+    edits = [(("m", 0, 0, 1, 2), ("m", 2, 0, 5, 2)), (("m", 2, 2, 10, 20), ("n'q", 0, 2, 10, 21)), (("a", 0, 2, -3, 0), ("a", 2, 0, 3, -1)),
+             (("z", 0, 0, 0, 0), ("z", 0, 0, 0, 0)), (("k", 2, 0, 7, 7), ("k", 0, 0, 8, 7))]
+    for before, after in edits:
+        key = f"edited-mark:{before}->{after}"
+        try:
+            obj = I.new(M, *before)
+            first = I.str_strict(obj)
+            for fld, v in zip(fields, after):
+                I.setattr_(obj, fld, v) if hasattr(I, "setattr_") else obj.attrs.__setitem__(fld, v)
+            second = I.str_strict(obj)
+            fresh = I.str_strict(I.new(M, *after))
+            chk.decide(rule, key, second == fresh, anchor,
+                       f"a mark printed as {first!r}, then edited in place to {after}, prints as {second!r}; a new mark with these values prints as {fresh!r}",
+                       "an edited mark prints like a new mark with the same values")
+        except PyExc as e:
+            chk.violation(rule, key, anchor, f"printing the edited mark fails: {e.cls_name}: {e.msg}")
+        except Unsupported as e:
+            chk.unknown(rule, key, anchor, f"abstract interpretation left the modelled subset: {e}")
 
 
 def listing_rule(chk: Check, ctx: Any, rule: str) -> None:
